@@ -60,6 +60,12 @@ theorem compareSerialMax_eq (n : Nat) (cell : Nat → Nat → Except String α) 
 theorem compareSerialAvg_eq (n : Nat) (cell : Nat → Nat → Except String α) (one : α) :
     compareSerialAvg n cell one = compareSerial n (fun i j => cell j i) one := rfl
 
+theorem compareSerialAvgAni_eq (n : Nat) (cani : Nat → Nat → Except String (Option α)) (avg : α → α → α)
+    (zero one : α) :
+    compareSerialAvgAni n cani avg zero one =
+      compareSerial n (fun i j => cani j i >>= fun r1 => cani i j >>= fun r2 => pure (avgOrZero avg zero r1 r2)) one :=
+  rfl
+
 theorem stepContainment_def (cell : Nat → Nat → Except String α) (one : α) (m : Mat α) (p : Nat × Nat) :
     stepContainment cell one m p =
       if p.1 = p.2 then pure (m.set2 p.1 p.2 one)
@@ -85,6 +91,23 @@ theorem compareSerial_ok (n : Nat) (cell : Nat → Nat → Except String α) (f 
     have hp' := mem_pairsUpper.mp hp
     simp only [stepSym, h p.1 p.2 hp'.1 hp'.2]
     rfl
+
+/-! ### serial average-containment ANI -/
+
+theorem avgOrZero_comm (avg : α → α → α) (hc : ∀ x y, avg x y = avg y x) (zero : α) (a b : Option α) :
+    avgOrZero avg zero a b = avgOrZero avg zero b a := by
+  cases a <;> cases b <;> simp [avgOrZero, hc]
+
+theorem compareSerialAvgAni_ok (n : Nat) (cani : Nat → Nat → Except String (Option α)) (g : Nat → Nat → Option α)
+    (avg : α → α → α) (zero one : α)
+    (h : ∀ i j, i ≠ j → i < n → j < n → cani i j = .ok (g i j)) :
+    compareSerialAvgAni n cani avg zero one =
+      .ok (upperSpec n (fun i j => avgOrZero avg zero (g j i) (g i j)) one) := by
+  rw [compareSerialAvgAni_eq]
+  apply compareSerial_ok
+  intro i j hij hj
+  rw [h j i (by omega) hj (by omega), h i j (by omega) (by omega) hj]
+  rfl
 
 /-! ### serial containment -/
 
